@@ -114,6 +114,7 @@ class GizaYamlDomain:
                         )
 
                         if giza_file.pages:
+                            giza_category.record_outputs(fileid, giza_file.pages)
                             for page in giza_file.pages:
                                 yield page, giza_file.diagnostics
                         elif giza_file.diagnostics:
@@ -263,6 +264,25 @@ class GizaYamlDomain:
         return (
             fileid.suffix == ".yaml" and get_giza_category(fileid) in self.yaml_mapping
         )
+
+    def other_generators(
+        self, pages: Iterable[n.FileId], source: n.FileId
+    ) -> List[n.FileId]:
+        """Return the files, other than the given one, which generate any of the given pages.
+        Two files may define the same ref: the page of whichever was processed last stands
+        for both, and has to be generated from the other file once that one is gone."""
+        wanted = set(pages)
+        result: List[n.FileId] = []
+        for giza_category in self.yaml_mapping.values():
+            for file_id, outputs in giza_category.outputs.items():
+                giza_file = giza_category.nodes.get(file_id)
+                if (
+                    giza_file is not None
+                    and giza_file.path != source
+                    and not wanted.isdisjoint(outputs)
+                ):
+                    result.append(giza_file.path)
+        return result
 
     def delete(self, name: str) -> List[n.FileId]:
         """Remove a file. Returns the files which inherit from it: their pages are now out of date."""
